@@ -186,6 +186,13 @@ def main(argv=None):
                 rep = json.load(f)
             mod.replay(run, rep)
         else:
+            # the replay files of a run describe THAT run: those of earlier runs of this property are removed first
+            import glob
+            for old in glob.glob(os.path.join(REPLAY, '%s-*.json' % pid)):
+                try:
+                    os.unlink(old)
+                except OSError:
+                    pass
             mod.check(run)
         rc = run.finish()
     except Exception as e:  # machinery failure
